@@ -35,6 +35,10 @@ type Case struct {
 	// the frames did to a connection with data in flight meets its timers (the
 	// live connection has unacknowledged data outstanding: retransmission timer)
 	LingerMs int `json:"linger_ms,omitempty"`
+	// SmallBuf: the listener, the live connection and the UDP sockets run with
+	// 4 KiB receive buffers, so that single large (jumbo / reassembled) segments
+	// and short floods already overflow the queues inside the stack
+	SmallBuf bool `json:"small_buf,omitempty"`
 }
 
 // World is one stack with live targets.
@@ -87,6 +91,15 @@ func NewWorld() (*World, error) {
 	w.UDPConn = uc
 	w.before = netsim.StatsString(env.Stack)
 	return w, nil
+}
+
+// Shrink gives every socket of the world a 4 KiB receive buffer.
+func (w *World) Shrink() {
+	for _, s := range []*netsim.Sock{w.L, w.Conn, w.UDPBound, w.UDPConn} {
+		if s != nil {
+			s.EP.SetSockOpt(tcpip.ReceiveBufferSizeOption(4096))
+		}
+	}
 }
 
 func (w *World) Close() {
